@@ -151,6 +151,9 @@ class _Canon(ast.NodeTransformer):
             return f.value
         if name in ("copy", "asarray", "asanyarray") and len(node.args) == 1 and not node.keywords:
             return node.args[0]
+        # expand_dims(a, axis=1) / expand_dims(a, 1) == a[:, newaxis]
+        if name == "expand_dims" and len(node.args) >= 1 and ((len(node.args) == 2 and isinstance(node.args[1], ast.Constant) and node.args[1].value == 1 and not node.keywords) or (len(node.args) == 1 and len(node.keywords) == 1 and node.keywords[0].arg == "axis" and isinstance(node.keywords[0].value, ast.Constant) and node.keywords[0].value.value == 1)):
+            return ast.Subscript(value=node.args[0], slice=ast.Tuple(elts=[ast.Slice(), ast.Name(id="newaxis", ctx=ast.Load())], ctx=ast.Load()), ctx=ast.Load())
         # count_nonzero(<comparison>) == sum(<comparison>) (a boolean mask)
         if name == "count_nonzero" and len(node.args) == 1 and not node.keywords and isinstance(node.args[0], (ast.Compare, ast.BoolOp)) or (name == "count_nonzero" and len(node.args) == 1 and not node.keywords and isinstance(node.args[0], ast.UnaryOp) and isinstance(node.args[0].op, (ast.Invert, ast.Not))):
             return ast.Call(func=ast.Name(id="sum", ctx=ast.Load()), args=node.args, keywords=[])
